@@ -2,7 +2,7 @@
 //! (`vec![]`, push, pop, clear, iter, into_iter, collect). Same observable contract as Vec for these
 //! operations; capacity `CAP` is a harness bound (exceeding it fails an assertion, never truncates).
 //! Why: every heap Vec of symbolic length costs CBMC minutes (realloc + array theory); this is inline.
-pub const CAP: usize = 12;
+pub const CAP: usize = 16;
 
 #[derive(Clone, Debug)]
 pub struct Vec<T> {
